@@ -109,8 +109,12 @@ def oracle_seq(init, ops, answers):
     return None
 
 
-def strip_flag(line):
-    return ' '.join(w.split(',')[0] + ',' + w.split(',')[2] for w in line.split(' ')) if line else line
+def strip_flag(line, ops=None):
+    """keep what C04 names: result of undo/redo and the text (the modified flag, also as the result of M, is C02's)"""
+    if not line:
+        return line
+    ws = line.split(' ')
+    return ' '.join(('0' if (ops and i < len(ops) and ops[i] == 'M') else w.split(',')[0]) + ',' + w.split(',')[-1] for i, w in enumerate(ws))
 
 
 def run_exe(exe, lines, timeout=900):
@@ -152,9 +156,9 @@ def chunk_worker(args):
             dis.append({'what': 'model driver: rc=%d, %d answers for %d requests' % (rc, len(out_m), len(lines)), 'stderr': err[-800:]})
         else:
             for (init, ops), a, b in zip(cases, out_c, out_m):
-                if a and a != b and strip_flag(a) != strip_flag(b) and len(dis) < 5:
+                if a and a != b and strip_flag(a, ops) != strip_flag(b, ops) and len(dis) < 5:
                     dis.append({'what': 'model and implementation differ on the result code or the text after some operation',
-                                'input': {'kind': 'lbuf', 'init': hx(init), 'ops': ops}, 'implementation': strip_flag(a), 'model': strip_flag(b)})
+                                'input': {'kind': 'lbuf', 'init': hx(init), 'ops': ops}, 'implementation': strip_flag(a, ops), 'model': strip_flag(b, ops)})
     for (init, ops), a in zip(cases, out_c):
         if not a:
             continue
